@@ -53,7 +53,7 @@ func H_c18_wrap() {
 		sb.WriteByte('a')
 	}
 	for k := 0; k < 3; k++ {
-		sb.WriteString([...]string{"b", "é", "ÿ"}[symInt(0, 2)])
+		sb.WriteString([...]string{"b", "é", "ÿ", " "}[symInt(0, 3)])
 	}
 	for sb.Len() < total {
 		sb.WriteByte('c')
